@@ -179,6 +179,8 @@ func (c *checkCtx) writeEvidence(level string, cov map[string]interface{}, assum
 		"store_flagged_sites":       c.S.Report.NStore,
 		"order_seams":               c.S.Report.OrderSeams,
 		"unseamed_order_sites":      nonNil(c.S.Report.Unseamed),
+		"clock_seams":               nonNil(c.S.Report.ClockSeams),
+		"rand_seams":                nonNil(c.S.Report.RandSeams),
 		"modelled_blocking_sites":   nonNil(c.S.Report.Modelled),
 		"unmodelled_blocking_sites": nonNil(c.S.Report.Unmodelled),
 		"files":                     c.S.Report.Files,
